@@ -2,11 +2,13 @@
 """Rewrites DESIGN.md §10.7 (per-property status as built) from checks/p/*.py and evidence/*.json."""
 import glob, importlib.util, json, os
 root = os.path.dirname(os.path.dirname(os.path.abspath(__file__)))
+import sys
+sys.path.insert(0, os.path.join(root, "checks"))
+import props as _props
 out = ["### 10.7 Per-property status as built (generated from checks/p/*.py and evidence/*.json by tools/designstatus.py)", ""]
 for p in sorted(glob.glob(os.path.join(root, "checks", "p", "C*.py"))):
     pid = os.path.basename(p)[:-3]
-    spec = importlib.util.spec_from_file_location("m", p); m = importlib.util.module_from_spec(spec); spec.loader.exec_module(m)
-    P, M = m.PROP, m.MANIFEST
+    P, M = _props.PROPS[pid], _props.MANIFEST_TEXT[pid]   # merged with the extension files checks/p/x_<ID>_*.py
     ev = {}
     try:
         ev = json.load(open(os.path.join(root, "evidence", pid + ".json")))
